@@ -95,7 +95,7 @@ ExpS(s, macros, files, deep) ==
          ELSE text
     [] OTHER -> <<s>>
 
-(* top-level constants with a unique name are replaced by their (parenthesised) value, one after the other; the value is
+(* top-level constants whose name is defined nowhere else are replaced by their (parenthesised) value, one after the other; the value is
    taken from the program as rewritten so far, so a constant defined in terms of another inlined constant ends up closed *)
 RECURSIVE InlineFrom(_, _, _)
 InlineFrom(q, p, S) ==
@@ -103,8 +103,20 @@ InlineFrom(q, p, S) ==
   ELSE LET i == CHOOSE i \in S : \A j \in S : i <= j
            d == q[CHOOSE k \in 1..Len(q) : q[k].k = "const" /\ q[k].name = p[i].name] IN
        InlineFrom(SubstSeq(q, p[i].name, ParE(d.e)), p, S \ {i})
+(* how often a name is defined anywhere in a statement list (constants, variables, labels at any depth, macro parameters):
+   only a name defined exactly once can be replaced by its value without asking which definition a use denotes *)
+RECURSIVE DefCount(_, _)
+DefCount(p, nm) ==
+  IF p = <<>> THEN 0
+  ELSE LET s == Head(p)
+           here == (IF s.k \in {"const", "var", "label"} /\ s.name = nm THEN 1 ELSE 0)
+                   + (IF s.k = "macrodef" THEN Cardinality({i \in 1..Len(s.params) : s.params[i] = nm}) ELSE 0)
+           inner == (IF "body" \in DOMAIN s THEN DefCount(s.body, nm) ELSE 0)
+                    + (IF s.k = "if" THEN DefCount(s.then, nm) + DefCount(s.else, nm) ELSE 0)
+                    + (IF s.k = "import" /\ "params" \in DOMAIN s THEN DefCount(s.params, nm) ELSE 0) IN
+       here + inner + DefCount(Tail(p), nm)
 InlineConsts(p) ==
-  LET idx == {i \in 1..Len(p) : p[i].k = "const" /\ Cardinality({j \in 1..Len(p) : p[j].k \in {"const", "var", "label"} /\ p[j].name = p[i].name}) = 1}
+  LET idx == {i \in 1..Len(p) : p[i].k = "const" /\ DefCount(p, p[i].name) = 1}
   IN SelectSeq(InlineFrom(p, p, idx), LAMBDA s : ~(s.k = "const" /\ \E i \in idx : p[i].name = s.name))
 
 ExpandAll(p, files) == ExpSeq(p, <<>>, files, TRUE)
